@@ -7,7 +7,7 @@ must be identical.  Recorders observe what actually happened: worker pids that e
 evaluators inside the workers), the experiment seed seen inside workers (part of the rows), and the arrival order of the
 T1-T4 transaction records at TransactionEncode.
 """
-import os, tempfile, shutil, json, hashlib
+import os, tempfile, shutil, json, hashlib, random
 from vf import expkit as X
 
 ID    = "C01"
@@ -20,11 +20,12 @@ PLAN  = {"quick":    {"shards": 8, "parallel": 4, "cases": 24,   "timeout": 1500
          "thorough": {"shards": 8, "parallel": 4, "cases": 480,  "timeout": 7000}}
 REQUIRED = ["oracle.rebuild-same", "oracle.inproc-chunked-same", "oracle.multiproc-same", "observed.multiproc-evaluations",
             "observed.runs-with-2+-worker-pids", "observed.arrival-orders", "oracle.multiproc-after-earlier-run",
-            "observed.cases-with-experiment-seed-0", "observed.cases-with-materialized-environments"]
+            "observed.cases-with-experiment-seed-0", "observed.cases-with-materialized-environments",
+            "observed.cases-with-midstream-generator-learner-listed-once"]
 ASSUMPTIONS = ["only deterministic picklable components; timing columns excluded", "processes <= 6",
                "seed=None (time seeded) filters are not generated"]
 
-def gen_case(rng, force_seed0=False, force_materialized=False, force_partial_cache=False):
+def gen_case(rng, force_seed0=False, force_materialized=False, force_partial_cache=False, force_rnginit=False):
     spec = X.gen_spec(rng)
     if force_partial_cache:
         # a cached environment longer than one cache slice (25), read in part by a later stage, evaluated by several learners
@@ -40,6 +41,18 @@ def gen_case(rng, force_seed0=False, force_materialized=False, force_partial_cac
     if force_seed0:
         # the experiment seed 0 (falsy) with consumers of the experiment seed: a PMF learner under an unseeded SequentialCB
         spec["seed"] = 0; spec["lrns"][0]["kind"] = "stateful-pmf"; spec["vals"][0]["kind"] = "cb"
+    # a learner whose own CobaRandom is part way through its stream when the experiment starts (it drew its initial weights in the
+    # constructor), listed in exactly one triple: run in place in-process, pickled for a worker.  Decided by a generator of its own
+    # so that the other choices of the case are the ones they were before this class was added.
+    r2 = random.Random(f"rnginit/{force_rnginit}/{spec!r}")
+    if force_rnginit or r2.random() < .4:
+        n = len(spec["lrns"])
+        spec["lrns"].append({"kind": "stateful-rnginit", "tag": f"L{n}", "seed": r2.randrange(1, 20), "uni": False})
+        if spec["triples"] == "cross":
+            if force_rnginit:
+                spec["triples"] = [[r2.random(), r2.randrange(n), r2.randrange(len(spec["vals"]))] for _ in range(r2.randint(1, 4))] + [[r2.random(), n, 0]]
+        else:
+            spec["triples"].insert(r2.randrange(len(spec["triples"]) + 1), [r2.random(), n, r2.randrange(len(spec["vals"]))])
     cfgs = []
     cfgs.append([1, 0, rng.choice([1, 2, 3, 5])])                     # in-process, chunks split
     for _ in range(3):
@@ -47,6 +60,11 @@ def gen_case(rng, force_seed0=False, force_materialized=False, force_partial_cac
         if p == 1 and mc == 0: mc = rng.choice([1, 2])
         cfgs.append([p, mc, mt])
     return {"spec": spec, "cfgs": cfgs}
+
+def _once_rnginit(spec):
+    if spec["triples"] == "cross": return False
+    ids = [i for i, l in enumerate(spec["lrns"]) if l["kind"] == "stateful-rnginit"]
+    return any(sum(1 for t in spec["triples"] if t[1] == i) == 1 for i in ids)
 
 def _sig_features(spec):
     fs = set()
@@ -120,7 +138,8 @@ def run_shard(ctx):
     workdir = tempfile.mkdtemp(prefix=f"vf-c01-{ctx.shard}-")
     try:
         for i in range(ctx.n):
-            case = gen_case(ctx.rng, force_seed0=(i == 0), force_materialized=(i == 1), force_partial_cache=(i == 2))
+            case = gen_case(ctx.rng, force_seed0=(i == 0), force_materialized=(i == 1), force_partial_cache=(i == 2), force_rnginit=(i == 1 and ctx.shard % 2 == 1))
+            if _once_rnginit(case["spec"]): ctx.count("observed.cases-with-midstream-generator-learner-listed-once")
             if any(f[0] == "materialize" for g in case["spec"]["groups"] for f in g["filters"]): ctx.count("observed.cases-with-materialized-environments")
             if case["spec"]["seed"] == 0: ctx.count("observed.cases-with-experiment-seed-0")
             try:
